@@ -91,6 +91,59 @@ class H(semh.Base):
         return " ".join(out)
 
 
+PARSE_SHAPES = {
+    # erroneous programs; `$c` is a token of kind ERROR (or IDENT) whose text is one SYMBOLIC code point
+    "missing-semicolon-at-eof": "$i = 1",
+    "missing-semicolon-at-eof-ident": "int $i",
+    "error-token-in-parens": "x = ( $e ) ;",
+    "error-token-statement": "$e x ;",
+    "error-token-after-type": "int $e ;",
+    "error-token-in-block": "gate g q { $e }",
+    "error-token-last": "x = 1 ; $e",
+    "error-token-condition": "if ( $e ) { }",
+    "unclosed-paren-before-nonascii": "x = ( $i",
+    "two-errors": "$e $e",
+    "stray-closer": ") $i ;",
+}
+
+
+class HP(H):
+    """parser diagnostics: StrStep::Error positions through the REAL SyntaxTreeBuilder::error (message, offset) -> SyntaxError range"""
+    def run(self, ex):
+        fam = self.fam; kit = fam.kit
+        _, name = self.task
+        self.symvars = {}
+        toks = []
+        n = 0
+        for w in PARSE_SHAPES[name].split():
+            if w in ("$e", "$i"):
+                c = SV(z3.BitVec(f"c{n}", 32), 32); n += 1
+                ex.add_constraint(z3.Or(z3.ULE(c.e, 0xD7FF), z3.And(z3.UGE(c.e, 0xE000), z3.ULE(c.e, 0x10FFFF))))
+                ex.add_constraint(z3.And(c.e != 32, c.e != 10))
+                self.symvars[f"c{n - 1}"] = c
+                toks.append(("ERROR" if w == "$e" else "IDENT", [c], False))
+            else:
+                toks.append((semh.word_kind(fam, w), w, False))
+        self.toks = toks
+        src = kit.source()
+        for kn, text, joint in toks:
+            src.tok(kn, text, joint)
+        root = src.build(ex)
+        full = src.full
+        total = span_len(full, 0, len(full.chars))
+        bounds = [w64(span_len(full, 0, k)) for k in range(len(full.chars) + 1)]
+        errs = src.tb.syntax_errors()
+        if not errs:
+            raise Unsupported("the erroneous shape produced no parser diagnostic: " + name)
+        for s_, e_ in errs:
+            S, E = w64(s_), w64(e_)
+            ex.prove(z3.And(z3.ULE(S, E), z3.ULE(E, w64(total))), f"`{self.label()}`: a parser diagnostic's range is not within the text (start <= end <= length)")
+            ex.prove(z3.Or([S == b for b in bounds]), f"`{self.label()}`: the start of a parser diagnostic is not on a character boundary")
+            ex.prove(z3.Or([E == b for b in bounds]), f"`{self.label()}`: the end of a parser diagnostic is not on a character boundary")
+        ex.obligations += 1
+        return f"{len(errs)}-parser-diagnostics"
+
+
 def native_confirm(text):
     """re-derives the verdict on the native pipeline: parse diagnostics with byte ranges, char boundaries by Python"""
     o = native.run_one("parse " + native.hexs(text), "dev", timeout=20)
@@ -115,6 +168,10 @@ def run_escapes(ctx, res):
     fails, counts, on_result = semh.collector(res, label_of=lambda t: f"{t[0]}/{t[1]}")
     st, errs = explore.explore_many(semh.famfactory(ctx.known, ctx.seed, H), tasks, workers=ctx.workers, max_paths=200000, on_result=on_result, log=ctx.log)
     res.merge_stats(st)
+    ptasks = [("parse", nm) for nm in PARSE_SHAPES]
+    st2, errs2 = explore.explore_many(semh.famfactory(ctx.known, ctx.seed, HP), ptasks, workers=min(ctx.workers, len(ptasks)), max_paths=20000, on_result=on_result, log=ctx.log)
+    res.merge_stats(st2)
+    ctx.log(f"parser diagnostics through SyntaxTreeBuilder::error: {st2.get('paths', 0)} paths over {len(ptasks)} erroneous shapes, violation={st2.get('violation', 0)} unsupported={st2.get('unsupported', 0)}")
     ctx.log(f"escape diagnostics: {st.get('paths', 0)} paths over {len(tasks)} literal shapes: {dict(counts)} panic={st.get('panic', 0)} violation={st.get('violation', 0)} unsupported={st.get('unsupported', 0)}")
     import hashlib
     for site, info in fails.items():
@@ -143,5 +200,5 @@ def run_escapes(ctx, res):
         rp = os.path.join(ctx.replay_dir, "escape_" + hashlib.sha1(site.encode()).hexdigest()[:10] + ".json")
         json.dump({"property": "C12", "source_text": r[3], "what": what}, open(rp, "w"), indent=1)
         res.violations.append({"what": json.dumps(what), "replay": rp})
-    res.functions_encoded += ["oq3_syntax::validation::{validate, validate_literal, unquote, push_err closure}", "oq3_lexer::unescape::{unescape_literal, unescape_str_common, scan_escape, scan_unicode, ...}"]
+    res.functions_encoded += ["oq3_syntax::syntax_node::SyntaxTreeBuilder::error, oq3_syntax::syntax_error::SyntaxError::{new_at_offset, new}", "oq3_syntax::validation::{validate, validate_literal, unquote, push_err closure}", "oq3_lexer::unescape::{unescape_literal, unescape_str_common, scan_escape, scan_unicode, ...}"]
     res.bounds["escape_literal_chars"] = f"<= {max(ns)} symbolic code points (all Unicode scalar values) between the quotes, STRING and BIT_STRING"
